@@ -222,32 +222,35 @@ type fxMemo struct {
 type fxLag struct{ m, a, d int }
 
 type fxCloud struct {
-	mu      sync.Mutex
-	w       *vt.Writer
-	enis    map[int]*fxEni
-	meta    map[int]*fxMeta
-	mdirty  map[int]bool
-	mleft   map[int]int
-	free    map[int]int
-	zone    map[int]string
-	nextA   map[int]int // per family
-	memo    map[string]*fxMemo
-	tokID   map[string]int
-	plan    map[int]map[string][]string
-	lag     map[int]fxLag
-	filterK string
-	filterV string
-	v6on    bool
-	dump    bool
-	post    []func()     // environment steps that follow the request being served (emitted after its event)
-	usedEni map[int]bool // ids are never handed out twice
-	metaVsw map[int]int  // vSwitch of every interface that ever existed (the metadata may lag behind a deletion)
+	mu       sync.Mutex
+	w        *vt.Writer
+	enis     map[int]*fxEni
+	meta     map[int]*fxMeta
+	mdirty   map[int]bool
+	mleft    map[int]int
+	free     map[int]int
+	zone     map[int]string
+	nextA    map[int]int // per family
+	memo     map[string]*fxMemo
+	tokID    map[string]int
+	plan     map[int]map[string][]string
+	lag      map[int]fxLag
+	filterK  string
+	filterV  string
+	v6on     bool
+	dump     bool
+	mplan    []string      // outcomes of the next metadata reads: ok | e500 | lost (consumed one per HTTP request)
+	post     []func()      // environment steps that follow the request being served (emitted after its event)
+	usedEni  map[int]bool  // ids are never handed out twice
+	creating map[int]bool  // interfaces made by a create call that has not returned yet (no other caller knows them)
+	madeBy   map[int][]int // slot -> interfaces its open call made
+	metaVsw  map[int]int   // vSwitch of every interface that ever existed (the metadata may lag behind a deletion)
 }
 
 func newFxCloud(w *vt.Writer) *fxCloud {
 	return &fxCloud{w: w, enis: map[int]*fxEni{}, meta: map[int]*fxMeta{}, mdirty: map[int]bool{}, mleft: map[int]int{},
 		free: map[int]int{}, zone: map[int]string{}, nextA: map[int]int{4: 1, 6: 1}, memo: map[string]*fxMemo{}, tokID: map[string]int{},
-		plan: map[int]map[string][]string{}, lag: map[int]fxLag{}, usedEni: map[int]bool{}, metaVsw: map[int]int{}}
+		plan: map[int]map[string][]string{}, lag: map[int]fxLag{}, usedEni: map[int]bool{}, metaVsw: map[int]int{}, creating: map[int]bool{}, madeBy: map[int][]int{}}
 }
 
 func (f *fxCloud) newEniID() int {
@@ -660,6 +663,8 @@ func (f *fxCloud) apply(slot int, act string, form map[string]string, ev vt.M, o
 		f.enis[id] = ne
 		f.usedEni[id] = true
 		f.metaVsw[id] = v
+		f.creating[id] = true
+		f.madeBy[slot] = append(f.madeBy[slot], id)
 		if tokStr != "" {
 			f.memo[tokStr] = &fxMemo{act: act, e: id}
 		}
@@ -906,6 +911,16 @@ func (t *fxMetaTransport) RoundTrip(req *http.Request) (*http.Response, error) {
 	f.mu.Lock()
 	defer f.mu.Unlock()
 	p := req.URL.Path
+	if len(f.mplan) > 0 && p != "/latest/api/token" { // injected failure of the metadata service itself (never a 404: that has a meaning)
+		o := f.mplan[0]
+		f.mplan = f.mplan[1:]
+		switch o {
+		case "e500":
+			return httpResp(req, 500, "verif: metadata service error"), nil
+		case "lost":
+			return nil, errLost
+		}
+	}
 	text := func(s string) (*http.Response, error) {
 		r := httpResp(req, 200, s)
 		r.Header.Set("Content-Type", "text/plain")
@@ -1024,6 +1039,14 @@ type fxSys struct {
 	conf  fxConf
 	fac   map[int]factory.Factory
 	done  map[int]chan struct{}
+	// what a realistic caller (the pool) would not do concurrently: guarded by cloud.mu
+	busy  map[int]fxBusy  // slot -> the call in flight
+	known map[[3]int]bool // (interface, family, address) the caller was told about: there from the start or reported by a return
+}
+
+type fxBusy struct {
+	kind string
+	e    int
 }
 
 func newFxAPI(t *testing.T, f *fxCloud, slot int, share *client.OpenAPI) *client.OpenAPI {
@@ -1054,7 +1077,7 @@ func newFxAPI(t *testing.T, f *fxCloud, slot int, share *client.OpenAPI) *client
 func newFxSys(t *testing.T, w *vt.Writer, c fxConf, pre []vt.M, vsws []vt.M) *fxSys {
 	f := newFxCloud(w)
 	f.v6on = c.v6
-	s := &fxSys{t: t, w: w, cloud: f, conf: c, fac: map[int]factory.Factory{}, done: map[int]chan struct{}{}}
+	s := &fxSys{t: t, w: w, cloud: f, conf: c, fac: map[int]factory.Factory{}, done: map[int]chan struct{}{}, busy: map[int]fxBusy{}, known: map[[3]int]bool{}}
 	for _, v := range vsws {
 		f.free[vt.Int(v["v"])] = vt.Int(v["free"])
 		f.zone[vt.Int(v["v"])] = "z1"
@@ -1090,6 +1113,12 @@ func newFxSys(t *testing.T, w *vt.Writer, c fxConf, pre []vt.M, vsws []vt.M) *fx
 	for k, e := range f.enis {
 		f.meta[k] = f.viewOf(e)
 		f.metaVsw[k] = e.vsw
+		for a := range e.v4 {
+			s.known[[3]int{k, 4, a}] = true
+		}
+		for a := range e.v6 {
+			s.known[[3]int{k, 6, a}] = true
+		}
 	}
 	if c.tagFilter {
 		f.filterK, f.filterV = "verif-owner", "me"
@@ -1140,7 +1169,7 @@ func (s *fxSys) eniByRank(rank int) int {
 	defer s.cloud.mu.Unlock()
 	var ids []int
 	for k := range s.cloud.enis {
-		if k != fxPrimary {
+		if k != fxPrimary && !s.cloud.creating[k] {
 			ids = append(ids, k)
 		}
 	}
@@ -1208,15 +1237,19 @@ func (s *fxSys) call(st vt.M) {
 	if x := f.enis[e]; x != nil {
 		vsw = x.vsw
 		if kind == "unassign" {
-			var sec []int
+			var sec []int // the caller only names addresses it was told about
 			if fam == 4 {
 				for _, a := range sortedKeys(x.v4) {
-					if a != x.primary {
+					if a != x.primary && s.known[[3]int{e, 4, a}] {
 						sec = append(sec, a)
 					}
 				}
 			} else {
-				sec = sortedKeys(x.v6)
+				for _, a := range sortedKeys(x.v6) {
+					if s.known[[3]int{e, 6, a}] {
+						sec = append(sec, a)
+					}
+				}
 			}
 			seen := map[int]bool{}
 			for _, i := range vt.List(st["idx"]) {
@@ -1239,6 +1272,14 @@ func (s *fxSys) call(st vt.M) {
 			}
 		}
 	}
+	// the pool works on one interface from two workers at most (allocation and disposal) and never touches an
+	// interface that is being created or deleted by another worker
+	for oc, b := range s.busy {
+		if oc != c && e != 0 && b.e == e && (b.kind == "delete" || kind == "delete") {
+			f.mu.Unlock()
+			return
+		}
+	}
 	// install the fault plan and the lags of this call
 	plan := map[string][]string{}
 	for act, l := range vt.Map(st["plan"]) {
@@ -1247,11 +1288,14 @@ func (s *fxSys) call(st vt.M) {
 		}
 	}
 	f.plan[c] = plan
+	f.mplan = plan["meta"]
 	f.lag[c] = fxLag{m: lagOf(st, "mlag"), a: lagOf(st, "alag"), d: lagOf(st, "dlag")}
-	f.mu.Unlock()
 	if kind == "unassign" && len(addrs) == 0 {
+		f.mu.Unlock()
 		return
 	}
+	s.busy[c] = fxBusy{kind: kind, e: e}
+	f.mu.Unlock()
 	n4, n6 := vt.Int(st["n4"]), vt.Int(st["n6"])
 	typ := vt.Str(st["type"])
 	trunkID := 0
@@ -1315,6 +1359,19 @@ func (s *fxSys) call(st vt.M) {
 		}
 		f.mu.Lock() // the return is ordered against the cloud's own events
 		f.plan[c] = nil
+		f.mplan = nil
+		delete(s.busy, c)
+		for _, id := range f.madeBy[c] {
+			delete(f.creating, id)
+		}
+		delete(f.madeBy, c)
+		rec := ret["eni"].(vt.M)
+		for _, a := range ret["v4"].([]int) {
+			s.known[[3]int{map[bool]int{true: vt.Int(rec["e"]), false: e}[kind == "create"], 4, a}] = true
+		}
+		for _, a := range ret["v6"].([]int) {
+			s.known[[3]int{map[bool]int{true: vt.Int(rec["e"]), false: e}[kind == "create"], 6, a}] = true
+		}
 		s.w.Emit(ret)
 		f.mu.Unlock()
 	}
